@@ -182,7 +182,10 @@ def build_driver() -> tuple[bool, str]:
     """Extract the model and build the OCaml driver if anything changed."""
     os.makedirs(BUILD, exist_ok=True)
     ensure_makefile()
-    rc, out, _ = sh(["make", "-j8", "theories/Ops.vo", "theories/Models.vo"], 1500, cwd=COQ)
+    # everything Extract.v requires must be up to date with the tables regenerated for this run
+    # (a stale .vo compiled against other tables makes the extraction fail with "inconsistent assumptions")
+    rc, out, _ = sh(["make", "-j8", "theories/Ops.vo", "theories/Models.vo", "theories/SaveCrash.vo",
+                     "theories/GatewayInv.vo", "theories/OpsDrv.vo"], 1500, cwd=COQ)
     if rc != 0:
         return False, out[-3000:]
     drv = os.path.join(BUILD, "driver")
